@@ -224,7 +224,7 @@ def run(ctx):
     seeds = sorted({0, 1, 12345, 2 + ctx.seed % 1000})
     cfgs = ["sh3", "wf3", "mix4cap"] + ([] if ctx.quick else ["sh3del"])
     jobs = [(c, s, N) for c in cfgs for s in seeds]
-    jobs += [("turtle", s, 4 if ctx.quick else 6) for s in (seeds[:2] if ctx.quick else seeds)]
+    jobs += [("turtle", s, 8 if ctx.quick else 12) for s in (seeds[:3] if ctx.quick else seeds)]
     hjobs = [("wf3", 1, N), ("turtle", 0, 3)]
     mjobs = [("sh3", s, 2, 5 if ctx.quick else 6) for s in seeds[:2]] + [("mix4cap", 1, 3, 5 if ctx.quick else 6), ("wf3", 7, 2, 5)]
     with mp.get_context("fork").Pool(min(16, os.cpu_count() or 1)) as pool:
